@@ -208,17 +208,27 @@ def run(env, rep):
     play = [x for x in c_cmds.get("play", [])]
     ok_pub = bool(pub) and all(re.search(r"vec!\[Amf0Value::Utf8String\(.*stream_key.*\), Amf0Value::Utf8String\(.*\)\]", x[1]) for x in pub)
     ok_play = bool(play) and all(re.search(r"vec!\[Amf0Value::Utf8String\(.*stream_key.*\)\]", x[1]) for x in play)
-    # server side: first removed argument is the key, second the mode
+    # server side: the event's stream key is the first element of the command's argument list and the mode is decided from the
+    # second - by the position of the element in the list the handler received, however it is taken out (remove, iterator, index)
     sp = st.get("handle_command_publish", (None, []))[1]
-    srv_pub_ok = False
+    srv_pub_ok, n_pub = True, 0
     for p in sp:
         rets = [t for t in p if t[0] == "returns"]
         if rets and "PublishStreamRequested" in rets[-1][1]:
-            takes = [t for t in p if t[0] == "take"]
-            srv_pub_ok = len(takes) == 2 and all(t[2] == "1@0" for t in takes)
+            n_pub += 1
+            m = re.search(r"PublishStreamRequested\([^,]*, [^,]*, elem\[0\] of (\w+) as Utf8String\.0, PublishMode::", rets[-1][1])
+            if not m or not any(t[0] == "when" and ("elem[1] of %s" % m.group(1)) in t[1] for t in p):
+                srv_pub_ok = False
+    srv_pub_ok = srv_pub_ok and n_pub >= 1
     spl = st.get("handle_command_play", (None, []))[1]
-    srv_play_ok = any(rets and "PlayStreamRequested" in rets[-1][1] and [t for t in p if t[0] == "take"][:1] and [t for t in p if t[0] == "take"][0][2] == "1@0"
-                      for p in spl for rets in [[t for t in p if t[0] == "returns"]])
+    srv_play_ok, n_play = True, 0
+    for p in spl:
+        rets = [t for t in p if t[0] == "returns"]
+        if rets and "PlayStreamRequested" in rets[-1][1]:
+            n_play += 1
+            if not re.search(r"PlayStreamRequested\([^,]*, [^,]*, elem\[0\] of \w+ as Utf8String\.0,", rets[-1][1]):
+                srv_play_ok = False
+    srv_play_ok = srv_play_ok and n_play >= 1
     rep.check("C02.R2", "publish-arguments", ok_pub and srv_pub_ok, "publish carries [stream key, mode]; the server takes them in that order", "publish argument order differs (client %s, server takes two leading arguments: %s)" % (ok_pub, srv_pub_ok))
     rep.check("C02.R2", "play-arguments", ok_play and srv_play_ok, "play carries [stream key]; the server takes the first argument as key", "play argument position differs (client %s, server %s)" % (ok_play, srv_play_ok))
     cs = st.get("handle_command_create_stream", (None, []))[1]
@@ -228,7 +238,7 @@ def run(env, rep):
     dele = c_cmds.get("deleteStream", [])
     ok_del_c = bool(dele) and all(re.search(r"vec!\[Amf0Value::Number\(", x[1]) for x in dele)
     sd = st.get("handle_command_delete_stream", (None, []))[1]
-    ok_del_s = any(t[0] == "take" and t[2] == "1@0" for p in sd for t in p)
+    ok_del_s = any(t[0] == "mut" and t[2] == "active_streams" and t[1] == "remove" and re.match(r"^&?\(?elem\[0\] of \w+ as Number\.0", t[3][0]) for p in sd for t in p)
     rep.check("C02.R2", "delete-stream-argument", ok_del_c and ok_del_s, "deleteStream carries the stream id as first argument on both sides", "deleteStream argument position differs")
     # ------------------------------------------------------------------ R3 identity flow of media
     for name, variant in (("publish_audio_data", "AudioData"), ("publish_video_data", "VideoData")):
